@@ -56,6 +56,27 @@ theorem integrate_suffix (cfg : Cfg ℚ) (s : Sys ℚ) (target : ℚ) (orc : Ora
         simp only
         exact loop_suffix cfg target orc fuel 0 _ []
 
+/-- when `terminate` is raised, the last reported event is a terminal one -/
+theorem terminalOnlyLast_getLast : ∀ (l : List (Nat × Probe ℚ)), DVP.Events.TerminalOnlyLast l →
+    l.any (fun x => x.2.terminal) = true → ∃ x, l.getLast? = some x ∧ x.2.terminal = true
+  | [], _, h => by simp at h
+  | [x], _, h => ⟨x, rfl, by simpa using h⟩
+  | x :: y :: r, ht, h => by
+    have hx : x.2.terminal = false := ht.1
+    have h' : (y :: r).any (fun x => x.2.terminal) = true := by simpa [List.any_cons, hx] using h
+    obtain ⟨z, hz, hzt⟩ := terminalOnlyLast_getLast (y :: r) ht.2 h'
+    exact ⟨z, by rw [List.getLast?_cons_cons]; exact hz, hzt⟩
+
+/-- … and the stop root of the loop is its root: an active, terminal probe of the step -/
+theorem stop_root_is_terminal_probe (sgn : ℚ) (probes : List (Probe ℚ)) (dflt : ℚ) (h : (handle sgn probes).2 = true) :
+    ∃ x : Nat × Probe ℚ, x.2.terminal = true ∧ x.2.active = true ∧ probes[x.1]? = some x.2 ∧
+      ((handle sgn probes).1.getLast?.map (·.2.root)).getD dflt = x.2.root := by
+  have hany : (handle sgn probes).1.any (fun x => x.2.terminal) = true := h
+  obtain ⟨x, hx, hxt⟩ := terminalOnlyLast_getLast _ (DVP.Events.handle_terminal_last sgn probes) hany
+  have hmem : x ∈ (handle sgn probes).1 := List.mem_of_getLast? hx
+  obtain ⟨h1, h2⟩ := DVP.Events.handle_sound sgn probes x hmem
+  exact ⟨x, hxt, h2, h1, by rw [hx]; rfl⟩
+
 /-! ## one invariant for every way the loop with events can end -/
 
 /-- what holds of the outcome `o` of the loop started in `(s, b)`:
@@ -72,7 +93,8 @@ structure Outcome (cfg : CfgEv ℚ) (orc : OracleEv ℚ) (s : Sys ℚ) (b : Book
   stop_grid : o.stopped = true → ∃ (s' : Sys ℚ) (root : ℚ) (k' : Nat) (t' h' : ℚ) (nf : Nat),
     (∃ mid, s'.ts = mid ++ s.ts) ∧ s'.ts ≠ [] ∧ s'.dt ≠ 0 ∧
       o.sys.ts = (Loop.integrate cfg.loop s' root (orc k' t' h').nested nf).sys.ts ∧
-      o.nestedReqs = (Loop.integrate cfg.loop s' root (orc k' t' h').nested nf).reqs
+      o.nestedReqs = (Loop.integrate cfg.loop s' root (orc k' t' h').nested nf).reqs ∧
+      (∃ x : Nat × Probe ℚ, x.2.terminal = true ∧ x.2.active = true ∧ (orc k' t' h').probes[x.1]? = some x.2 ∧ x.2.root = root)
 
 theorem outcome_fail (cfg : CfgEv ℚ) (orc : OracleEv ℚ) (s s' : Sys ℚ) (b b' : Book ℚ) (kn : List ℚ) (st : Status) (reqs nreqs : List (Req ℚ)) (k : Nat)
     (hts : ∃ news, s'.ts = news ++ s.ts) (hev : ∃ more, b'.events = b.events ++ more)
@@ -96,8 +118,8 @@ theorem outcome_step (cfg : CfgEv ℚ) (orc : OracleEv ℚ) (s s2 : Sys ℚ) (b 
             obtain ⟨a, b', c⟩ := h.static
             exact ⟨by rw [a, hstat.1], by rw [b', hstat.2.1], by rw [c, hstat.2.2]⟩,
           stop_grid := fun hs => by
-            obtain ⟨s', root, k', t', h', nf, ⟨mid, hmid⟩, hne', hdt', e1, e2⟩ := h.stop_grid hs
-            exact ⟨s', root, k', t', h', nf, ⟨mid ++ [x], by rw [hmid, hts]; simp⟩, hne', hdt', e1, e2⟩ }
+            obtain ⟨s', root, k', t', h', nf, ⟨mid, hmid⟩, hne', hdt', e1, e2, e3⟩ := h.stop_grid hs
+            exact ⟨s', root, k', t', h', nf, ⟨mid ++ [x], by rw [hmid, hts]; simp⟩, hne', hdt', e1, e2, e3⟩ }
 
 theorem integrate_static' (cfg : Cfg ℚ) (s : Sys ℚ) (target : ℚ) (orc : Oracle ℚ) (fuel : Nat) (hne : s.ts ≠ []) :
     (integrate cfg s target orc fuel).sys.t0 = s.t0 ∧ (integrate cfg s target orc fuel).sys.tf = s.tf ∧
@@ -142,8 +164,13 @@ theorem loopEv_outcome (cfg : CfgEv ℚ) (target : ℚ) (orc : OracleEv ℚ) :
               by_cases hterm : (handle (stepSign s.tcur (s.tcur + dT)) (orc k s.tcur (DV.Loop.request target s)).probes).2 = true
               · simp only [hterm, if_true]
                 -- the nested call
+                obtain ⟨xp, hp1, hp2, hp3, hp4⟩ := stop_root_is_terminal_probe (stepSign s.tcur (s.tcur + dT))
+                  (orc k s.tcur (DV.Loop.request target s)).probes s.tcur hterm
                 generalize hroot : (Option.map (fun x => x.2.root)
                   (handle (stepSign s.tcur (s.tcur + dT)) (orc k s.tcur (DV.Loop.request target s)).probes).1.getLast?).getD s.tcur = root
+                have hprobe : ∃ x : Nat × Probe ℚ, x.2.terminal = true ∧ x.2.active = true ∧
+                    (orc k s.tcur (DV.Loop.request target s)).probes[x.1]? = some x.2 ∧ x.2.root = root :=
+                  ⟨xp, hp1, hp2, hp3, by rw [← hroot]; exact hp4.symm⟩
                 have hsuf := integrate_suffix cfg.loop { s with cap := s.cap + g1 + g2 } root
                   (orc k s.tcur (DV.Loop.request target s)).nested (orc k s.tcur (DV.Loop.request target s)).nestedFuel
                 have hstat := integrate_static' cfg.loop { s with cap := s.cap + g1 + g2 } root
@@ -158,12 +185,12 @@ theorem loopEv_outcome (cfg : CfgEv ℚ) (target : ℚ) (orc : OracleEv ℚ) :
                     exact { samples := hsuf, events := hrec, stop_status := fun _ h => by simp at h,
                             plain_status := fun h => by simp at h, static := hstat,
                             stop_grid := fun _ => ⟨{ s with cap := s.cap + g1 + g2 }, root, k, s.tcur, DV.Loop.request target s, _,
-                              ⟨[], rfl⟩, hne, ((DVP.Loop.guard_rat cfg.loop target s).mp hg).1, rfl, rfl⟩ }
+                              ⟨[], rfl⟩, hne, ((DVP.Loop.guard_rat cfg.loop target s).mp hg).1, rfl, rfl, hprobe⟩ }
                   · simp only [hcb, Bool.false_eq_true, if_false]
                     exact { samples := hsuf, events := hrec, stop_status := fun _ _ => rfl,
                             plain_status := fun h => by simp at h, static := hstat,
                             stop_grid := fun _ => ⟨{ s with cap := s.cap + g1 + g2 }, root, k, s.tcur, DV.Loop.request target s, _,
-                              ⟨[], rfl⟩, hne, ((DVP.Loop.guard_rat cfg.loop target s).mp hg).1, rfl, rfl⟩ }
+                              ⟨[], rfl⟩, hne, ((DVP.Loop.guard_rat cfg.loop target s).mp hg).1, rfl, rfl, hprobe⟩ }
               · simp only [hterm, Bool.false_eq_true, if_false]
                 cases hg3 : growthEv target s dT (s.cap + g1 + g2)
                     (handle (stepSign s.tcur (s.tcur + dT)) (orc k s.tcur (DV.Loop.request target s)).probes).1.length with
@@ -314,7 +341,8 @@ theorem integrateEv_outcome (cfg : CfgEv ℚ) (s : Sys ℚ) (evs : List (Nat × 
       ∃ (s' : Sys ℚ) (root : ℚ) (k' : Nat) (t' h' : ℚ) (nf : Nat),
         (∃ mid, s'.ts = mid ++ s.ts) ∧ s'.ts ≠ [] ∧ s'.dt ≠ 0 ∧
         (integrateEv cfg s evs kn nEvents target orc fuel).sys.ts = (Loop.integrate cfg.loop s' root (orc k' t' h').nested nf).sys.ts ∧
-        (integrateEv cfg s evs kn nEvents target orc fuel).nestedReqs = (Loop.integrate cfg.loop s' root (orc k' t' h').nested nf).reqs) := by
+        (integrateEv cfg s evs kn nEvents target orc fuel).nestedReqs = (Loop.integrate cfg.loop s' root (orc k' t' h').nested nf).reqs ∧
+        (∃ x : Nat × Probe ℚ, x.2.terminal = true ∧ x.2.active = true ∧ (orc k' t' h').probes[x.1]? = some x.2 ∧ x.2.root = root)) := by
   unfold integrateEv
   by_cases hc : s.crashed = true
   · simp [hc]
